@@ -57,6 +57,11 @@ func (c *Ctx) runCached(pc *propCheck, config string) *Report {
 	tmp.configActive = config
 	c.imports[pc.id] = tmp // (set first: a cyclic import sees the partial report instead of recursing)
 	pc.run(c, tmp)
+	if pc.post != nil {
+		// rules decided after the per-configuration pass (C20's compiler listing): for this configuration only
+		pc.post([]*Ctx{c}, tmp, "quick")
+		tmp.configActive = config
+	}
 	return tmp
 }
 
